@@ -124,6 +124,18 @@ def check(ctx):
                  'it had arrived, end markers overtake the row in flight and it is lost or delivered with the next resource')
     if not tw:
         run.ok('R21', pm.relpath, '(g0) no timed wait in %s' % P)
+    # worker processes are ordinary (non-daemonic) processes: a daemonic process may not have children, so a row function that uses
+    # multiprocessing itself (a helper process, a pool, a nested parallelize) fails inside the worker - where the failure is only printed
+    for c_ in ast.walk(pm.tree):
+        if isinstance(c_, ast.Call) and (res.external_name(c_) or '').endswith('Process'):
+            dm = [k for k in c_.keywords if k.arg == 'daemon' and not (isinstance(k.value, ast.Constant) and k.value.value in (False, None))]
+            run.check(not dm, 'R21', where(repo, c_), P, '(j) worker process is not daemonic: ' + u(c_)[:80],
+                      'the workers are daemonic: a row function that starts a process of its own fails in the worker ("daemonic processes '
+                      'are not allowed to have children"), the failure is swallowed there and the row is delivered unprocessed')
+    for a_ in ast.walk(pm.tree):
+        if isinstance(a_, ast.Assign) and isinstance(a_.targets[0], ast.Attribute) and a_.targets[0].attr == 'daemon' and \
+                not (isinstance(a_.value, ast.Constant) and a_.value.value in (False, None)):
+            run.fail('R21', where(repo, a_), P, '(j) ' + u(a_), 'a worker is made daemonic: row functions that start processes fail inside it')
     model, C, W, F, Pr, I, O, D = topology(ctx)
     prod, fetch, work, fork = Pr.fi, F.fi, W.fi, C.fi
     run.analysed['channel model'] = dict(actors=[repr(a) for a in model.actors], queues=[repr(c) for c in model.chans],
